@@ -54,7 +54,7 @@ type Config struct {
 	Deadline    time.Time
 	OwnPkg      func(*ssa.Package) bool
 	Verbose     bool
-	FixedInputs map[string]any // concrete replay inside the engine (engine self-validation)
+	FixedInputs map[string]any          // concrete replay inside the engine (engine self-validation)
 	IsKnown     func(v *Violation) bool // known findings do not count towards MaxViol
 }
 
@@ -265,7 +265,11 @@ type explorer struct {
 	out       strings.Builder // captured stdout of the path
 	exitCode  int
 	inInit    bool
+	catchExit bool
+	effects   []string
 }
+
+func (e *explorer) effect(s string) { e.effects = append(e.effects, s) }
 
 func (e *explorer) stdout(s string) { e.out.WriteString(s) }
 
@@ -323,6 +327,8 @@ func (e *explorer) resetPath(prefix []int32) {
 	e.lastModel = nil
 	e.out.Reset()
 	e.exitCode = -1
+	e.catchExit = false
+	e.effects = nil
 }
 
 // abbrev names a long term so that terms stay small (DAG sharing).
